@@ -1,63 +1,105 @@
 ---------------------------- MODULE MCPowerFlow ----------------------------
 (* Model-checking shell for PowerFlow: the dyadic toy units of the bounded configs and the emission  *)
 (* of every behaviour (unit, initial SOC, <<engine word, dt, demand class>>) as a replayable case.    *)
-(* Lattice: 1 W = 65536 units (16 fractional bits), dt in half seconds, 1 J = 131072 units.           *)
-(* Ratings 256 / 192 / 128 W (engine, generator, drivetrain), battery 256 W / 4096 J with the window  *)
-(* [1/8, 7/8] and derating ramps of width 1/4 (slope 1/4 W per J: DtSafe = 4 s * eta_r / 1.001).      *)
+(* Toy lattice (conventional / battery-electric): 1 W = 65536 units (16 fractional bits), dt in half   *)
+(* seconds, 1 J = 131072 units.  Base ratings 256 / 192 / 128 W (engine, generator, drivetrain),       *)
+(* battery 256 W / 4096 J with the window [1/8, 7/8] and derating ramps of width 1/4 (slope 1/4 W per  *)
+(* J: DtSafe = 4 s * eta_r / 1.001).  The rating variants make each component in turn the binding one. *)
+(* Hybrid lattice: HybridLoco loads its generator with a hard-coded 50 kW, so the unit must be real-   *)
+(* sized: 1 W = 64 units, ratings 256 / 192 / 128 / 128 kW (x 1.024), battery 2 MJ.                    *)
 EXTENDS PowerFlow, Json
 
 W1 == 65536
 J1 == 131072
-Cap == 4096 * J1          \* 2^29
 
-Unit(kind, kf, kg, ke, kr, lag, aux, auxkd) ==
-  [kind |-> kind, rfc |-> 256 * W1, rgen |-> 192 * W1, redrv |-> 128 * W1, rres |-> 256 * W1,
-   floor |-> 64 * W1, lag |-> lag, aux |-> aux * W1, auxkd |-> auxkd, idle |-> 4 * W1,
-   kf |-> kf, kg |-> kg, ke |-> ke, kr |-> kr, flat |-> TRUE,
-   cap |-> Cap, smin |-> Cap \div 8, slo |-> 3 * (Cap \div 8), shi |-> 5 * (Cap \div 8), smax |-> 7 * (Cap \div 8),
-   delta |-> W1 \div 16, ps |-> W1, ds |-> 2, lat |-> TRUE, assert |-> TRUE]
-ConvU(kf, kg, ke, lag, aux, auxkd) == Unit("conv", kf, kg, ke, 1, lag, aux, auxkd)
-BelU(ke, kr, aux, auxkd) == Unit("bel", 1, 1, ke, kr, 4, aux, auxkd)
+(* r = <<rfc, rgen, redrv, rres>> in watts, warm = engine already at its rating before the first step *)
+Unit(kind, k, r, lag, aux, auxkd, warm) ==
+  LET cap == 16 * r[4] * J1          \* ramps of width cap/4 = 4 s * rres
+  IN [kind |-> kind, rfc |-> r[1] * W1, rgen |-> r[2] * W1, redrv |-> r[3] * W1, rres |-> r[4] * W1,
+      floor |-> (r[1] \div 4) * W1, lag |-> lag, aux |-> aux * W1, auxkd |-> auxkd, idle |-> 4 * W1,
+      kf |-> k[1], kg |-> k[2], ke |-> k[3], kr |-> k[4], flat |-> TRUE,
+      cap |-> cap, smin |-> cap \div 8, slo |-> 3 * (cap \div 8), shi |-> 5 * (cap \div 8), smax |-> 7 * (cap \div 8),
+      delta |-> W1 \div 16, ps |-> W1, ds |-> 2, lat |-> TRUE, assert |-> TRUE,
+      pb0 |-> IF warm THEN r[1] * W1 ELSE 0, haux |-> 0, split2 |-> 1]
+RBase == <<256, 192, 128, 256>>
+ConvU(kf, kg, ke, lag, aux, auxkd) == Unit("conv", <<kf, kg, ke, 1>>, RBase, lag, aux, auxkd, FALSE)
+BelU(ke, kr, aux, auxkd) == Unit("bel", <<1, 1, ke, kr>>, RBase, 4, aux, auxkd, FALSE)
+(* binding-component variants *)
+ConvGenBound(kg, ke)  == Unit("conv", <<2, kg, ke, 1>>, <<256, 48, 128, 256>>, 4, 2, 0, FALSE)   \* rgen < floor/kg: generator binds from step 1
+ConvEdrvBound(kg, ke) == Unit("conv", <<2, kg, ke, 1>>, <<256, 192, 16, 256>>, 4, 2, 0, FALSE)   \* redrv < (floor/kg - aux)/ke: drivetrain binds
+ConvWarm(kf, kg, ke)  == Unit("conv", <<kf, kg, ke, 1>>, <<256, 256, 256, 256>>, 4, 2, 0, TRUE)  \* engine at its rating: FcRating binds (kg > 1)
+ConvWarmGen(ke)       == Unit("conv", <<2, 1, ke, 1>>, <<256, 192, 256, 256>>, 2, 2, 0, TRUE)    \* warmed engine, generator rating binds
+BelResBound(ke, kr)   == Unit("bel", <<1, 1, ke, kr>>, <<256, 192, 128, 64>>, 4, 2, 0, FALSE)    \* rres < redrv: battery rating binds both ways
+BelEdrvBound(kr)      == Unit("bel", <<1, 1, 1, kr>>, <<256, 192, 32, 256>>, 4, 2, 0, FALSE)     \* redrv << rres: drivetrain binds both ways
+
+(* hybrid units: watts x 64; r in kW-ish units of 1024 W *)
+H1 == 64
+HybU(k, r, lag, aux, split2, warm) ==
+  LET kw == 1024 * H1
+      cap == 16 * r[4] * 1024 * (H1 * 2)
+  IN [kind |-> "hyb", rfc |-> r[1] * kw, rgen |-> r[2] * kw, redrv |-> r[3] * kw, rres |-> r[4] * kw,
+      floor |-> (r[1] \div 4) * kw, lag |-> lag, aux |-> aux * H1, auxkd |-> 0, idle |-> 4 * kw,
+      kf |-> k[1], kg |-> k[2], ke |-> k[3], kr |-> k[4], flat |-> TRUE,
+      cap |-> cap, smin |-> cap \div 8, slo |-> 3 * (cap \div 8), shi |-> 5 * (cap \div 8), smax |-> 7 * (cap \div 8),
+      delta |-> 2 * H1, ps |-> H1, ds |-> 2, lat |-> TRUE, assert |-> TRUE,
+      pb0 |-> IF warm THEN r[1] * kw ELSE 0, haux |-> 50000 * H1, split2 |-> split2]
+RHyb == <<256, 192, 128, 128>>
 
 K == {1, 2, 4}
 AllCls  == {"zero", "half", "pubm", "pub", "pubp", "over", "regenm", "regen", "regenp", "dyn", "dynp"}
 ConvCls == {"zero", "half", "pubm", "pub", "pubp", "over", "dyn", "dynp"}    \* regen_pub = 0 for a conventional unit
 ConvOff == {"zero", "half", "dyn", "dynp"}                                   \* any positive demand is rejected alike
 BelOff  == {"zero", "pub", "regen"}
-BelCls9 == AllCls \ {"half", "dynp"}
 SocAll  == {3, 8, 13}          \* sixteenths: on the discharge ramp / mid / on the charge ramp
 Dt3 == {1, 2, 4}
 Dt2 == {1, 4}
-
-\* ---- quick
-QC_Cfgs == {ConvU(2, 4, 1, 4, 2, 0), ConvU(4, 1, 2, 16, 2, 8)}
-QB_Cfgs == {BelU(2, 1, 2, 0), BelU(1, 4, 2, 8)}
-\* ---- F-C01-1 corner: battery at its minimum SOC
-MS_Cfgs == {BelU(2, 2, 2, 0)}
-MS_Cls  == {"zero", "pub", "regen", "dyn"}
-\* ---- thorough
-\* depth 3, every efficiency combination, hist hidden by VIEW
-TC_Cfgs == {ConvU(kf, kg, ke, 4, 2, 0) : kf \in K, kg \in K, ke \in K} \cup {ConvU(2, 2, 2, lag, 0, 8) : lag \in {2, 16}}
-TB_Cfgs == {BelU(ke, kr, 2, 0) : ke \in K, kr \in K} \cup {BelU(2, 2, 0, 8)}
-\* depth 4, emitted
-T4C_Cfgs == {ConvU(2, 4, 1, 4, 2, 0), ConvU(1, 2, 4, 2, 0, 8)}
-T4C_On  == {"zero", "half", "pubm", "pub", "pubp", "over", "dyn"}
-T4B_Cfgs == {BelU(2, 4, 2, 0)}
-T4B_On  == {"zero", "pubm", "pub", "pubp", "regen", "regenp", "dyn"}
-\* depth 5, hist hidden by VIEW
-T5C_Cfgs == {ConvU(2, 2, 2, 4, 2, 0)}
-T5B_Cfgs == {BelU(2, 2, 2, 0)}
-T5_ConvCls == {"zero", "half", "pubm", "pub", "pubp", "over", "dyn"}
-T5_BelCls  == {"zero", "pubm", "pubp", "regen", "regenp", "dyn"}
 OnOnly == {TRUE}
 Bools == BOOLEAN
 SocMin == {2}
 ClsZero == {"zero"}
 ClsZeroDyn == {"zero", "dyn"}
+
+\* ---- quick (depth 3, emitted, sampled): base units + one unit per binding component
+QC_Cfgs == {ConvU(2, 4, 1, 4, 2, 0), ConvU(4, 1, 2, 16, 2, 8),
+            ConvGenBound(1, 2), ConvEdrvBound(1, 1), ConvWarm(2, 2, 1), ConvWarmGen(1)}
+QC_On  == {"zero", "half", "pubm", "pub", "pubp", "over", "dyn", "ratep"}
 QC_Off == {"zero", "half", "dyn"}
-QC_On == ConvCls \ {"dynp"}
-QB_On == AllCls \ {"half", "regenm", "dynp"}
+QB_Cfgs == {BelU(2, 1, 2, 8), BelResBound(1, 2), BelEdrvBound(4)}
+QB_On  == {"zero", "pubm", "pub", "pubp", "over", "regen", "regenp", "dyn"}
 QB_Off == {"zero", "regen"}
+QH_Cfgs == {HybU(<<2, 2, 2, 2>>, RHyb, 4, 8192, 1, FALSE), HybU(<<1, 2, 1, 4>>, RHyb, 2, 50000, 2, TRUE),
+            HybU(<<2, 1, 2, 1>>, RHyb, 4, 8192, 0, TRUE)}
+QH_On  == {"zero", "half", "pubm", "pub", "pubp", "regen", "regenp", "dyn"}
+QH_Off == {"zero", "regen"}
+\* ---- F-C01-1 corner: battery at its minimum SOC
+MS_Cfgs == {BelU(2, 2, 2, 0)}
+MS_Cls  == {"zero", "pub", "regen", "dyn"}
+\* ---- thorough
+\* depth 3, every efficiency combination and every binding variant, hist hidden by VIEW
+TC_Cfgs == {ConvU(kf, kg, ke, 4, 2, 0) : kf \in K, kg \in K, ke \in K} \cup {ConvU(2, 2, 2, lag, 0, 8) : lag \in {2, 16}}
+           \cup {ConvGenBound(kg, ke) : kg \in {1, 2}, ke \in {1, 2}} \cup {ConvEdrvBound(kg, ke) : kg \in {1, 2}, ke \in {1, 2}}
+           \cup {ConvWarm(kf, kg, ke) : kf \in {1, 4}, kg \in {2, 4}, ke \in {1, 2}} \cup {ConvWarmGen(ke) : ke \in {1, 2}}
+TC_On  == ConvCls \cup {"rate", "ratep"}
+TB_Cfgs == {BelU(ke, kr, 2, 0) : ke \in K, kr \in K} \cup {BelU(2, 2, 0, 8)}
+           \cup {BelResBound(ke, kr) : ke \in {1, 2}, kr \in {1, 2}} \cup {BelEdrvBound(kr) : kr \in {1, 4}}
+TH_Cfgs == {HybU(<<kf, kg, ke, kr>>, RHyb, 4, aux, s2, w) : kf \in {2}, kg \in {1, 2}, ke \in {1, 2}, kr \in {1, 2},
+                                                          aux \in {8192, 50000}, s2 \in {0, 1, 2}, w \in BOOLEAN}
+TH_On  == AllCls \ {"regenm", "dynp"}
+\* depth 4, emitted
+T4C_Cfgs == {ConvU(2, 4, 1, 4, 2, 0), ConvU(1, 2, 4, 2, 0, 8), ConvWarmGen(2)}
+T4C_On  == {"zero", "half", "pubm", "pub", "pubp", "over", "dyn"}
+T4B_Cfgs == {BelU(2, 4, 2, 0), BelResBound(2, 1)}
+T4B_On  == {"zero", "pubm", "pub", "pubp", "regen", "regenp", "dyn"}
+T4H_Cfgs == {HybU(<<2, 2, 2, 2>>, RHyb, 4, 8192, 1, TRUE)}
+T4H_On  == {"zero", "pubm", "pub", "pubp", "regen", "regenp", "dyn"}
+\* depth 5, hist hidden by VIEW
+T5C_Cfgs == {ConvU(2, 2, 2, 4, 2, 0)}
+T5B_Cfgs == {BelU(2, 2, 2, 0)}
+T5_ConvCls == {"zero", "half", "pubm", "pub", "pubp", "over", "dyn"}
+T5_BelCls  == {"zero", "pubm", "pubp", "regen", "regenp", "dyn"}
+\* ---- fault models (bin/selftest): Level B with one deliberate defect must break the named invariant
+FM_Conv == {ConvU(2, 2, 1, 4, 2, 0), ConvGenBound(1, 2)}
+FM_Bel  == {BelU(2, 2, 2, 0)}
 
 Done == n = Depth /\ pc = "aux"
 Emit == Done => PrintT(<<"REPLAY", ToJson([cfg |-> cfg, soc0 |-> soc0, steps |-> hist])>>)
